@@ -204,7 +204,11 @@ func (g *ExprGen) Gen(typ string, depth int) string {
 			}
 			return g.kw(g.R.Pick([]string{"TRUE", "FALSE"}))
 		}
-		switch g.R.Intn(11) {
+		switch g.R.Intn(12) {
+		case 11:
+			// clock and random functions in positions where the result does not depend on their value
+			return g.R.Pick([]string{"(" + g.fn("Rnd") + "() < 2)", "(" + g.fn("Random") + "() >= 0)", "(" + g.fn("Ticks") + "() > 0)",
+				"(" + g.fn("Now") + "() > " + g.fn("Date") + "(2001, 2, 3))", "(" + g.fn("Rnd") + "() > 5)"})
 		case 0, 1:
 			t := g.R.Pick([]string{"int", "int", "float", "str", "long", "span", "date"})
 			return "(" + g.Gen(t, depth-1) + g.sp() + g.R.Pick([]string{"=", "<>", "!=", ">", "<", ">=", "<="}) + g.sp() + g.Gen(t, depth-1) + ")"
@@ -337,11 +341,36 @@ func GenValue(r *Rand, typ string) Val {
 	return VNull()
 }
 
-// GenVarSet draws values for all variables of an expression.
+// GenVarSet draws values for all variables of an expression. The special entry
+// "#order" fixes the layout of the collection built from the set: the names in
+// a seeded order, sometimes with unused extra variables in between and with a
+// second entry that differs from an earlier one by letter case only (the first
+// one added wins, so it never changes the result).
 func (g *ExprGen) GenVarSet(r *Rand) VarSet {
 	vs := VarSet{}
 	for _, n := range g.VarSeq {
 		vs[n] = GenValue(r, g.Vars[strings.ToUpper(n)])
+	}
+	if len(g.VarSeq) > 0 && r.Bool(0.6) {
+		order := append([]string{}, g.VarSeq...)
+		r.Shuffle(len(order), func(i, j int) { order[i], order[j] = order[j], order[i] })
+		var out []string
+		for _, n := range order {
+			if r.Bool(0.25) {
+				out = append(out, fmt.Sprintf("unused%d", r.Intn(4)))
+			}
+			out = append(out, n)
+			if r.Bool(0.2) {
+				dup := flipCase(r, n)
+				if dup == n {
+					dup = strings.ToUpper(n)
+				}
+				if dup != n {
+					out = append(out, dup) // added later: must lose against n
+				}
+			}
+		}
+		vs["#order"] = VStr(strings.Join(out, ","))
 	}
 	return vs
 }
